@@ -413,7 +413,7 @@ async fn run_queries(ctx: &Ctx, step: &Value, w: &mut TraceWriter, scn: &Value, 
         "itype": ity, "hist": step.get("hist").cloned().unwrap_or(json!("")),
         "frags": frags,
         "covered": idx_meta.as_ref().and_then(|m| m.fragment_bitmap.as_ref()).map(|b| b.iter().collect::<Vec<u32>>()).unwrap_or_default(),
-        "legacy": d.is_legacy_storage()}));
+        "legacy": matches!(ctx.storage.as_deref(), Some("legacy") | Some("0.1"))}));
     let index = match (&idx_meta, step.get("search").and_then(|v| v.as_bool()).unwrap_or(false)) {
         (Some(m), true) => Some(d.open_scalar_index("val", &m.uuid.to_string(), &NoOpMetricsCollector).await?),
         _ => None,
@@ -424,9 +424,9 @@ async fn run_queries(ctx: &Ctx, step: &Value, w: &mut TraceWriter, scn: &Value, 
     for (qi, p) in step["preds"].as_array().unwrap().iter().enumerate() {
         let mut results = vec![];
         for var in &variants {
-            let r: lance::Result<(Vec<i64>, Vec<String>)> = async {
+            let r: lance::Result<(Vec<i64>, Vec<Value>, Vec<String>)> = async {
                 let mut sc = d.scan();
-                sc.project(&["id"])?;
+                sc.project(&["id", "val"])?;
                 if use_expr {
                     sc.filter_expr(ctx.expr(p));
                 } else {
@@ -453,18 +453,21 @@ async fn run_queries(ctx: &Ctx, step: &Value, w: &mut TraceWriter, scn: &Value, 
                 }
                 let batches: Vec<RecordBatch> = sc.try_into_stream().await?.try_collect().await?;
                 let mut ids = vec![];
+                let mut vals = vec![];
                 for b in &batches {
                     let a = b.column_by_name("id").unwrap().as_primitive::<Int32Type>();
+                    let v = b.column_by_name("val").unwrap();
                     for i in 0..b.num_rows() {
                         ids.push(a.value(i) as i64);
+                        vals.push(ctx.model_of(v, i));
                     }
                 }
-                Ok((ids, nodes))
+                Ok((ids, vals, nodes))
             }
             .await;
             match r {
-                Ok((ids, nodes)) => results.push(json!({"name": var["name"], "res": "ok", "ids": ids, "nodes": nodes})),
-                Err(e) => results.push(json!({"name": var["name"], "res": classify(&e), "text": err_text(&e), "ids": [], "nodes": []})),
+                Ok((ids, vals, nodes)) => results.push(json!({"name": var["name"], "res": "ok", "ids": ids, "vals": vals, "nodes": nodes})),
+                Err(e) => results.push(json!({"name": var["name"], "res": classify(&e), "text": err_text(&e), "ids": [], "vals": [], "nodes": []})),
             }
         }
         // direct search on the opened index
@@ -550,8 +553,15 @@ fn mutate(_ctx: &Ctx, name: &str, rows: &[(i64, Value, u64, u64)], zone: i64, p:
         return;
     }
     let strip = |v: &mut Value| {
-        if let Some(ids) = v.get_mut("ids").and_then(|x| x.as_array_mut()) {
-            ids.retain(|x| !drop.contains(&x.as_i64().unwrap()));
+        let keep: Vec<bool> = v["ids"].as_array().map(|a| a.iter().map(|x| !drop.contains(&x.as_i64().unwrap())).collect()).unwrap_or_default();
+        for key in ["ids", "vals"] {
+            if let Some(xs) = v.get_mut(key).and_then(|x| x.as_array_mut()) {
+                let mut i = 0;
+                xs.retain(|_| {
+                    i += 1;
+                    keep[i - 1]
+                });
+            }
         }
     };
     for r in ev["results"].as_array_mut().unwrap() {
@@ -707,7 +717,22 @@ fn main() {
                     o.insert("rows".into(), json!(r));
                 }
             }
-            w.emit(json!({"ev": "step", "scn": id, "i": i + 1, "step": st, "res": res, "text": text.chars().take(300).collect::<String>()}));
+            // fragments after the step: [id, physical rows, deleted rows]
+            let fr: Vec<Value> = ctx
+                .ds
+                .as_ref()
+                .map(|d| {
+                    d.get_fragments()
+                        .iter()
+                        .map(|f| {
+                            let m = f.metadata();
+                            json!([m.id, m.physical_rows.map(|x| x as i64).unwrap_or(-1),
+                                   m.deletion_file.as_ref().map(|x| x.num_deleted_rows.map(|n| n as i64).unwrap_or(1)).unwrap_or(0)])
+                        })
+                        .collect()
+                })
+                .unwrap_or_default();
+            w.emit(json!({"ev": "step", "scn": id, "i": i + 1, "step": st, "res": res, "text": text.chars().take(300).collect::<String>(), "frags": fr}));
         }
         let _ = std::fs::remove_dir_all(&dir);
         n += 1;
